@@ -64,8 +64,14 @@ def gen(r, tier):
                     yield "reduce ; %s ; F in=%s out=%s var=0 ctx=0" % (s, ",".join(ins), out)
         # writerfunc
         vec = ["[]" + c for c in cols]
-        for ins in (["int", "S", "err"] + vec, ["int", "int", "err"] + vec, ["int", "S"] + vec, ["str", "S", "err"] + vec,
-                    ["int", "S", "err"] + vec[:-1], ["int", "S", "err"] + cols, ["int", "S", "err"] + vec + ["[]int"]):
+        # one column parameter with another element type: an interface the column type implements (T) or not, another type
+        retyped = []
+        for i in range(len(vec)):
+            for e in ("[]I", "[]f64", "[]str", "[]int"):
+                if e != vec[i]:
+                    retyped.append(["int", "S", "err"] + vec[:i] + [e] + vec[i + 1:])
+        for ins in [["int", "S", "err"] + vec, ["int", "int", "err"] + vec, ["int", "S"] + vec, ["str", "S", "err"] + vec,
+                    ["int", "S", "err"] + vec[:-1], ["int", "S", "err"] + cols, ["int", "S", "err"] + vec + ["[]int"]] + retyped:
             for out in ("err", "int", "-", "err,err"):
                 yield "writerfunc ; %s ; F in=%s out=%s var=0 ctx=0" % (s, ",".join(ins), out)
         # repartition
